@@ -289,7 +289,26 @@ class OuterEval:
         self.path_sources = path_sources
         self.cache = {}
         self.consulted = set()
-        self.reach = walk.reach_under(body, self.decide)
+        # named sub-conditions (`let is_api_path = A.is_match(p) || B.is_match(p);`) are bool locals with several definitions: their value is
+        # resolved from the definitions that are feasible, and the walk is repeated until nothing changes
+        self.flagvals = {}
+        self.reach = set(range(len(body.blocks)))
+        for _ in range(5):
+            self.reach = walk.reach_under(body, self.decide)
+            new = {}
+            for (s0, d0, lab0, t0) in cfg.switch_edges(body):
+                if s0 not in self.reach:
+                    continue
+                d = cfg.describe_operand(body, t0['discr'])
+                while d['k'] == 'un' and d['op'] == 'Not':
+                    d = cfg.describe_operand(body, d['a'])
+                if d['k'] == 'multi':
+                    v = self.value({'cp': d['l']})
+                    if v is not None:
+                        new[d['l']] = v
+            if new == self.flagvals:
+                break
+            self.flagvals = new
 
     def call_value(self, term):
         name = cfg.callee_name(term) or ''
@@ -338,7 +357,7 @@ class OuterEval:
         elif d['k'] == 'call':
             v = self.call_value(d['term'])
         elif d['k'] == 'multi':
-            v = None
+            v = self.flagvals.get(d.get('l'))
         if v is None:
             return None
         return walk.bool_labels(term, (not v) if neg else v)
@@ -418,6 +437,15 @@ def r16f(ck, fb, rows):
         return classify
 
     def call_name(t):
+        # a named sub-condition that copies a captured flag (`let need_auth = enable_auth && is_check_path;`)
+        if 'place' in t:
+            from rn.facts import pl_fields
+            fs0 = pl_fields(t['place'])
+            if pl_local(t['place']) == 1 and fs0 and str(fs0[0]).isdigit():
+                return ('uv', int(fs0[0]))
+            return None
+        if (cfg.callee_name(t) or '').endswith('String::is_empty'):
+            return 'token_empty'
         return None
     n = 0
     consulted = set()
@@ -559,7 +587,18 @@ def r16d(ck, fb):
     f403 = b.calls(r'HttpResponse>::Forbidden$|HttpResponse::Forbidden$')
     for (ea, cp, te, sr, so) in itertools.product([False, True], [False, True], [False, True], ['Ok', 'Err'], ['Some', 'None']):
         env = {'enable_auth': ea, 'is_check_path': cp, 'token_empty': te, 'session_result': sr, 'session_option': so}
-        r = walk.walker(b, classify, env)
+        def call_name(t):
+            # named sub-conditions (`let need_auth = enable_auth && is_check_path;`) are resolved from what they copy
+            if 'place' in t:
+                from rn.facts import pl_fields, pl_local
+                fs0 = pl_fields(t['place'])
+                if pl_local(t['place']) == 1 and fs0 and upv.get(fs0[0]) in ('enable_auth', 'is_check_path'):
+                    return upv[fs0[0]]
+                return None
+            if (cfg.callee_name(t) or '').endswith('String::is_empty'):
+                return 'token_empty'
+            return None
+        r, _named = walk.table_walk(b, classify, env, call_name)
         # the `pass` flag: a local assigned a constant on each feasible path, then tested once; resolve it from the feasible assignments
         doms = [cfg.describe_operand(b, t['discr']) for (s_, d_, lab_, t) in cfg.dominating_edges(b, sc[0].bb)]
         flags = [d['l'] for d in doms if d['k'] == 'multi']
@@ -582,7 +621,7 @@ def r16d(ck, fb):
             if d['k'] == 'multi' and d.get('l') == flag:
                 return ('bool', 'pass')
             return classify(d, term)
-        r = walk.walker(b, classify2, env2)
+        r, _named2 = walk.table_walk(b, classify2, env2, call_name)
         if provs:
             # the provider folds "token empty" and "lookup failed" into None
             want = (not ea) or (not cp) or (so == 'Some')
